@@ -56,6 +56,22 @@ func spec_render(s Snippet, ctx context.Context) string {
 //@   ensures result == (len(v) == 0)
 //@   note only the EMPTY block renders nothing: a block of white space (a line break the generator rendered on purpose) is text like any other
 
+func spec_printerOf(s Snippet) *printer   { p, _ := s.(*printer); return p }
+func spec_templateOf(s Snippet) *template { t, _ := s.(*template); return t }
+
+//@ func Sprintf
+//@   props C09
+//@   assigns nothing
+//@   ensures spec_printerOf(result) != nil && fresh(spec_printerOf(result)) && spec_printerOf(result).fmt == fmt && eq(spec_printerOf(result).args, args)
+//@   note the constructor keeps the format and the argument list as given, for EVERY argument count: a format without arguments is still a format (`%%` renders as one percent sign, a verb without argument panics) - it is never handed out as literal text
+
+//@ func T
+//@   props C09
+//@   ensures spec_templateOf(result) != nil && fresh(spec_templateOf(result)) && spec_templateOf(result).format == fmt && spec_templateOf(result).args != nil
+//@   loop 1 invariant t != nil && t.format == fmt && t.args != nil && fresh(t)
+//@   loop 2 invariant t != nil && t.format == fmt && t.args != nil && fresh(t)
+//@   note the constructor keeps the format as given and always has an argument table (what the table holds is what the TArg values hand over: Args.Args / arg.Args)
+
 //@ func template.IsNil
 //@   props C09 C01
 //@   pure
